@@ -22,7 +22,7 @@ from . import common
 
 ADMINS = ['admin', 'Lead@557058:abc-1']                 # declared: by name / by name and account id
 # commenters (the hosts hand out lower-case names / account ids)
-CANDIDATES = ['admin', 'lead', '557058:abc-1', 'none', 'null', 'mallory', 'admi', 'admin2', '', 'robot',
+CANDIDATES = ['admin', 'lead', '557058:abc-1', 'none', 'null', 'mallory', 'admi', 'admin2', '', 'robot', '999',
               'lead@557058:abc-1', '557058']
 EXPECTED = {'admin', 'lead', '557058:abc-1'}
 
@@ -33,7 +33,7 @@ def load_settings():
     path = os.path.join(d, 'settings.yml')
     with open(path, 'w') as f:
         f.write('repository_owner: o\nrepository_slug: s\nrepository_host: mock\n'
-                'robot: robot\nrobot_email: r@x\npull_request_base_url: http://x/{pr_id}\n'
+                'robot: robot@999\nrobot_email: r@x\npull_request_base_url: http://x/{pr_id}\n'
                 'commit_base_url: http://x/{commit_id}\nbuild_key: pre-merge\n'
                 'required_peer_approvals: 1\nrequired_leader_approvals: 0\n')
         f.write('admins:\n' + ''.join('  - %s\n' % a for a in ADMINS))
@@ -73,12 +73,17 @@ def harness(ctx):
     author = CANDIDATES[ctx.choose('commenter', len(CANDIDATES))]
     member, granted = run(author, settings)
     want = author in EXPECTED
-    ctx.stats.obligations += 2
+    ctx.stats.obligations += 3
     bad = None
+    # the robot's own identity (declared as name@account_id): a comment is the robot's iff its
+    # author is the robot's user name (GitHub, mock) or its account id (Bitbucket)
+    is_robot = (author == settings['robot']) or (settings['robot'] == author)
     if bool(member) != want:
         bad = 'membership in the configured admins'
     elif granted != want:
         bad = 'privileged keyword granted'
+    elif bool(is_robot) != (author in ('robot', '999')) or bool(author != settings['robot']) == bool(is_robot):
+        bad = 'recognition of the robot\'s own name'
     return dict(author=author, bad=bad, member=bool(member), granted=granted)
 
 
